@@ -90,6 +90,11 @@ Section C20.
     tc_periodic c = true -> grid_transform o isnan nanv ln half c = Err ValueError.
   Proof. exact (transform_periodic o isnan nanv ln half). Qed.
 
+  Theorem C20_transform_dims : forall (c : tcall (A:=A)),
+    List.length (filter (fun d => memS d (axis_dims c)) (dnames (dims (tc_da c)))) <> 1 ->
+    refused (grid_transform o isnan nanv ln half c).
+  Proof. exact (transform_dims_wrong o isnan nanv ln half). Qed.
+
   Theorem C20_transform_outer : forall (c : tcall (A:=A)),
     tc_method c = "conservative" -> lookupP Outer (tc_coords c) = None ->
     refused (grid_transform o isnan nanv ln half c).
@@ -155,6 +160,7 @@ Print Assumptions C20_position_word.
 Print Assumptions C20_fill_value.
 Print Assumptions C20_raw.
 Print Assumptions C20_transform_periodic.
+Print Assumptions C20_transform_dims.
 Print Assumptions C20_transform_outer.
 Print Assumptions C20_transform_bins.
 Print Assumptions C20_ufunc_number.
